@@ -79,12 +79,45 @@ pub struct KConfig {
     pub step_cap: u64,
     pub record_trace: bool,
     pub hb: bool,
+    /// every simulated task gets a brand-new OS thread (no pooling): thread-local state of the
+    /// code under test cannot leak in from earlier runs or from an earlier task of this run
+    pub fresh_threads: bool,
 }
 
 impl KConfig {
     pub fn new(seed: u64, strategy: Strategy) -> KConfig {
-        KConfig { seed, strategy, step_cap: 20_000, record_trace: false, hb: false }
+        KConfig { seed, strategy, step_cap: 20_000, record_trace: false, hb: false, fresh_threads: clean_room() }
     }
+}
+
+thread_local! {
+    static CLEAN_ROOM: std::cell::Cell<bool> = const { std::cell::Cell::new(false) };
+}
+
+/// Is the calling thread inside `in_clean_room`?
+pub fn clean_room() -> bool {
+    CLEAN_ROOM.with(|c| c.get())
+}
+
+/// Run `f` on a brand-new OS thread; every simulation started from it gives each simulated task a
+/// brand-new OS thread as well. Used to confirm, minimise and replay violations: the exploration
+/// batch pools its threads for speed, and a pooled thread carries whatever thread-local state the
+/// code under test left on it in earlier runs.
+pub fn in_clean_room<R: Send>(f: impl FnOnce() -> R + Send) -> R {
+    std::thread::scope(|s| {
+        let h = std::thread::Builder::new()
+            .name("clean-room".into())
+            .stack_size(8 * 1024 * 1024)
+            .spawn_scoped(s, || {
+                CLEAN_ROOM.with(|c| c.set(true));
+                f()
+            })
+            .expect("spawn clean-room thread");
+        match h.join() {
+            Ok(r) => r,
+            Err(p) => std::panic::resume_unwind(p),
+        }
+    })
 }
 
 #[derive(Clone, Debug)]
@@ -165,6 +198,7 @@ pub struct KState {
 pub struct Kernel {
     m: Mutex<KState>,
     main_cv: Condvar,
+    fresh_threads: bool,
 }
 
 type Job = Box<dyn FnOnce() + Send + 'static>;
@@ -172,7 +206,8 @@ type Job = Box<dyn FnOnce() + Send + 'static>;
 /// Task threads are pooled: creating and destroying an OS thread per simulated task serialises
 /// all worker threads of the batch driver on the process's address-space lock. A pooled thread is
 /// indistinguishable from a fresh one for the code under test (thread-locals of the simulator are
-/// reset per task; the code under test has none).
+/// reset per task). Thread-locals of the code under test would survive on a pooled thread:
+/// violations are therefore confirmed, minimised and replayed with `fresh_threads` (see `in_clean_room`).
 static POOL: Mutex<Vec<std::sync::mpsc::Sender<Job>>> = Mutex::new(Vec::new());
 
 fn pool_run(job: Job) {
@@ -203,6 +238,10 @@ fn pool_run(job: Job) {
             }
         })
         .expect("spawn sim task thread");
+}
+
+fn fresh_run(job: Job) {
+    std::thread::Builder::new().name("sim-task-fresh".into()).stack_size(512 * 1024).spawn(job).expect("spawn sim task thread");
 }
 
 thread_local! {
@@ -330,6 +369,7 @@ impl Kernel {
                 timer_streak: 0,
             }),
             main_cv: Condvar::new(),
+            fresh_threads: cfg.fresh_threads,
         });
 
         let slot: Arc<Mutex<Option<R>>> = Arc::new(Mutex::new(None));
@@ -455,7 +495,9 @@ impl Kernel {
             let mut st = self.lock();
             st.live_os += 1;
         }
-        pool_run(Box::new(move || {
+        let fresh = self.fresh_threads;
+        let run: fn(Job) = if fresh { fresh_run } else { pool_run };
+        run(Box::new(move || {
             CURRENT.with(|c| *c.borrow_mut() = Some((k.clone(), id)));
             // wait for the baton
             let start = {
